@@ -1142,7 +1142,15 @@ impl PartialEq for DataArc {
     fn eq(&self, other: &Self) -> bool {
         // It's really important to check first of both arc reference the same object, otherwise the compare
         // a deadlock will occur.
-        Arc::ptr_eq(&self.arc, &other.arc) || self.arc.lock().unwrap().eq(other.lock().unwrap().deref())
+        if Arc::ptr_eq(&self.arc, &other.arc) {
+            return true;
+        }
+        // Don't hold any lock while the contents are compared: the elements of one side may be
+        // reachable from the other side as well (e.g. "a == a[0]" for a nested array), and locking
+        // such a value a second time would block forever.
+        let left = self.arc.lock().unwrap().clone();
+        let right = other.arc.lock().unwrap().clone();
+        left.eq(&right)
     }
 }
 
